@@ -3,6 +3,10 @@
 1. TLC model-checks the abstract closed loop of spec/Cascade.tla (Cascade_mc.cfg: the
    time-guarded envelope invariants give the temporal reading "once settled, stays settled").
 2. TLC enumerates the launch configurations (Cascade_ic_<tier>.cfg, -dump): spec -> code.
+   Alarming domain = what the property lists (offsets, attitudes within 60 deg, velocities,
+   rates, both modes) at the simulator's own heading command psi_sp = 0; one extra launch per
+   seed with a commanded heading /= 0 is run and validated too, but a rejection there is only
+   reported (SPEC-DRIFT cascade/<mode>/<clause>/heading=<deg>, coverage.beyond_property).
 3. harness/cascade.py runs the real closed loop (plant f + shipped controllers + allocator,
    gains extracted from scripts/rdd2_sim.py) for 30 s from every configuration and writes
    one integer-coded NDJSON line per control period.
